@@ -17,7 +17,7 @@ REQUIRED = ["accepted_create_sound", "accepted_create_signed_by_did_key", "accep
             "fact_resolve_conditions", "fact_controller_skips", "fact_create_update_split", "fact_callback_steps",
             "fact_store_calls", "fact_update_steps", "fact_ambassador_controller_resolution", "fact_key_resolver"]
 
-DOC_RE = re.compile(r"doc=(\S+?)\{Context:\[[^\]]*\];Controller:\[([^\]]*)\];VerificationMethod:\[[^\]]*\];Authentication:\[[^\]]*\];"
+DOC_RE = re.compile(r"doc=(\S+?)\{Context:\[[^\]]*\];Controller:\[([^\]]*)\];VerificationMethod:\[([^\]]*)\];Authentication:\[[^\]]*\];"
                     r"AssertionMethod:\[[^\]]*\];CapabilityInvocation:\[([^\]]*)\]")
 
 
@@ -26,9 +26,21 @@ def stored_docs(obs):
     out = {}
     for m in DOC_RE.finditer(obs):
         ctrl = [x.split("=")[0] for x in m.group(2).split(",") if x]
-        keys = [x.split("=", 1)[1] for x in m.group(3).split(",") if "=" in x]
+        keys = [x.split("=", 1)[1] for x in m.group(4).split(",") if "=" in x]
         out.setdefault(m.group(1), []).append((ctrl, keys))
     return out
+
+
+def stored_vm_mismatch(obs):
+    """a verification method of a STORED document whose id fragment is not the thumbprint of its own key material"""
+    for m in DOC_RE.finditer(obs):
+        for x in m.group(3).split(","):
+            if "=" not in x:
+                continue
+            vid, key = x.split("=", 1)
+            if "#" not in vid or vid.split("#", 1)[1] != key or not vid.startswith(m.group(1) + "#"):
+                return vid + " carries key " + (key or "<none>")
+    return None
 
 
 def wellformed_nuts(doc):
@@ -162,6 +174,10 @@ def run(ctx):
         prev_obs = cur_obs
         if shown != "=":
             cur_obs = shown
+            bad_vm = stored_vm_mismatch(shown)
+            if bad_vm:
+                report("stored-verification-method-id-is-not-its-key-thumbprint",
+                       "a resolvable document holds a verification method whose id is not DID#thumbprint(its own key): " + bad_vm, i)
         if "NOTIFY-MISMATCH" in flags:
             report("notify-mismatch", "network notified of a DID update although the document was rejected (or not notified although accepted)", i)
         if "NONDETERMINISTIC" in flags:
@@ -195,13 +211,14 @@ def run(ctx):
         elif verified:
             # the signing key must be listed for capabilityInvocation in some stored version of the DID itself or of a
             # DID that some version of it names as controller (state BEFORE the delivery)
+            # ... by a CONTROLLER: an own version counts only if it controls itself (no controller entries, or lists itself)
             docs = stored_docs(prev_obs)
             mine = docs.get(doc["id"], [])
-            okk = any(tx["signer"] in keys for _, keys in mine)
+            okk = any(tx["signer"] in keys for ctrl, keys in mine if not ctrl or doc["id"] in ctrl)
             if not okk:
                 for ctrl, _ in mine:
                     for cdid in ctrl:
-                        if any(tx["signer"] in keys for _, keys in docs.get(cdid, [])):
+                        if cdid != doc["id"] and any(tx["signer"] in keys for _, keys in docs.get(cdid, [])):
                             okk = True
             if not okk:
                 report("accepted-update-by-unlisted-key", "update accepted although the signing key is not listed for capabilityInvocation "
